@@ -381,7 +381,7 @@ def grid(name, tier, rng):
             for red in ("mean", "sum", "none"):
                 out.append({"N": N, "C": C, "reduction": red})
     elif name == "linear":
-        for xs in [[3, 4], [1, 2], [2, 3, 4], [2, 2, 2, 3], [5, 1]]:
+        for xs in [[3, 4], [1, 2], [2, 3, 4], [2, 2, 2, 3], [5, 1], [4]]:
             for o in (1, 3):
                 for b in (True, False):
                     out.append({"xshape": xs, "out": o, "bias": b})
